@@ -87,7 +87,7 @@ package litefs
 //@   requires db != nil
 //@   modifies class("C|atomic_bool")
 
-//@ func (db *DB) ApplyLTXNoLock [C15,C16,C01,C09]
+//@ func (db *DB) ApplyLTXNoLock [C15,C16,C01,C09,C11]
 //@   requires  dbWF(db) && walKeysPositive(db)
 // A-DBSIZE (unchecked, listed): the commit size of an LTX header stays below 2^32 - 256 pages (as in CommitJournal)
 //@   on call DB.checksum assume arg1 <= 0xffffff00
